@@ -29,9 +29,9 @@ func descN(v ssa.Value, depth int) string {
 	d := depth + 1
 	switch x := v.(type) {
 	case *ssa.Parameter:
-		return x.Name()
+		return paramName(x)
 	case *ssa.FreeVar:
-		return x.Name()
+		return freeVarName(x)
 	case *ssa.Global:
 		if x.Pkg != nil {
 			if rel, ok := Rel(x.Pkg.Pkg.Path()); ok {
@@ -57,7 +57,7 @@ func descN(v ssa.Value, depth int) string {
 			if src := allocSource(x); src != nil {
 				return descN(src, d)
 			}
-			return x.Comment
+			return "~" + x.Comment
 		}
 		return "new"
 	case *ssa.FieldAddr:
@@ -155,6 +155,52 @@ func descN(v ssa.Value, depth int) string {
 		return "range(" + descN(x.X, d) + ")"
 	}
 	return fmt.Sprintf("%T", v)
+}
+
+// paramName gives a position-based canonical name, so that renaming a receiver or a
+// parameter does not change any access path: "recv" for a method receiver, "argN" else.
+func paramName(x *ssa.Parameter) string {
+	fn := x.Parent()
+	if fn == nil {
+		return x.Name()
+	}
+	for i, pp := range fn.Params {
+		if pp == x {
+			if fn.Signature.Recv() != nil {
+				if i == 0 {
+					return "recv"
+				}
+				return fmt.Sprintf("arg%d", i)
+			}
+			return fmt.Sprintf("arg%d", i+1)
+		}
+	}
+	return x.Name()
+}
+
+// freeVarName: a captured variable is named after the enclosing function's parameter it
+// captures (canonically), else by its own name prefixed with "~".
+func freeVarName(x *ssa.FreeVar) string {
+	fn := x.Parent()
+	for fn != nil && fn.Parent() != nil {
+		par := fn.Parent()
+		for _, pp := range par.Params {
+			if pp.Name() == x.Name() {
+				return paramName(pp)
+			}
+		}
+		found := false
+		for _, fv := range par.FreeVars {
+			if fv.Name() == x.Name() {
+				found = true
+			}
+		}
+		if !found {
+			break
+		}
+		fn = par
+	}
+	return "~" + x.Name()
 }
 
 // allocSource: for a local Alloc that is written exactly once, at function entry, with
